@@ -924,6 +924,7 @@ RULES = [
     ("C01.registry", lambda c, r: pat.shared(__import__("sa.rules.c15", fromlist=["x"]).rule_listops, "C01.registry")(c, r)),
     # ... and as the way the grace period hands the readers back: an overwrite instead of a splice drops every reader that registered while the
     # scan had released the registry lock - later grace periods return without waiting for it
+    ("C01.prune", lambda c, r: pat.shared(__import__("sa.rules.c16", fromlist=["x"]).rule_child, "C01.prune", lambda x: "prune.keeps-self" in x["instance"] or x["status"] != "pass")(c, r)),   # the fork child keeps its own bp reader slot: pruning it while the child is (or later gets) inside a critical section hands the slot to another thread - the grace period no longer sees this reader
     ("C01.putback", lambda c, r: pat.shared(__import__("sa.rules.c15", fromlist=["x"]).rule_lists, "C01.putback")(c, r)),
     ("C01.self", lambda c, r: pat.shared(__import__("sa.rules.c02", fromlist=["x"]).rule_self, "C01.self")(c, r)),   # a qsbr updater that returns offline is no longer waited for
     ("C01.listtrav", lambda c, r: __import__("sa.rules.c15", fromlist=["x"]).rule_listtrav(c, r, "C01.listtrav")),   # wait_for_readers walks the registry with these macros
